@@ -26,14 +26,24 @@ UNITS = [
              4: Cl(expect="process_descendant(__e)", types=["Pointer<T>"], ret="(o: Data<T>)",
                    ensures=[("rec", "is_nodes(o) && nodes(o) == desc_c_fn()(nd(__e))")]),
          }),
-    Unit(name="process_selectors", file=F, fn="process_selectors", order=60, status="assumed", serves=["C01", "C02"],
-         why_assumed="map-reduce over State::reduce with a cloned input: the RFC order clause is a KNOWN FINDING on this tree "
-                     "(pinned by the test index_unit_keys_test), so only the multiset clause can be assumed; both clauses are evaluated by the bounded back end",
-         requires=[("wf", "forall|i: int| 0 <= i < selectors@.len() ==> wf_selector(#[trigger] selectors@[i])")],
+    Unit(name="process_selectors", file=F, fn="process_selectors", order=60, serves=["C01", "C02"],
+         calls=["Selector::process", "State::reduce"],
+         requires=[("wf", "selectors@.len() > 0 && forall|i: int| 0 <= i < selectors@.len() ==> wf_selector(#[trigger] selectors@[i])")],
          ensures=[
              ("root", "r.root == step.root"),
              ("nodes", "is_nodes(step.data) ==> is_nodes(r.data)"),
-         ]),
+             # as implemented: per selector over the whole input list (KNOWN FINDING KF-C02-union-order: not the RFC order) ...
+             ("by_selector", "is_nodes(step.data) ==> nodes(r.data) == sels_by_selector(selectors@, nodes(step.data), step.root)"),
+             # ... which IS the RFC order whenever the segment receives at most one input node
+             ("rfc_single_input", "is_nodes(step.data) && nodes(step.data).len() <= 1 ==> nodes(r.data) == mapped(nodes(step.data), sels_fn(selectors@, step.root))"),
+         ],
+         shapes=[("E6", 1), ("R6r", 1, "{ let ghost __st = st0@; let __f = $F; let __r = vf_map_reduce_or($X, __f, $G, $D); "
+                  "proof { lemma_selectors_from_map_reduce(__f, $G, $X@, __st, __r); "
+                  "if nodes(__st.data).len() <= 1 { lemma_by_selector_single($X@, nodes(__st.data), __st.root); } } __r }")],
+         body_prefix="let st0: Ghost<State<'a, T>> = Ghost(step); broadcast use axiom_root_state;",
+         closures={1: Cl(expect="s.process(step.clone())", types=["&Selector"], ret="(o: State<'a, T>)",
+                         requires=[("wf", "wf_selector(*s)")],
+                         ensures=[("rel", "nodes_rel(st0@, o, mapped(nodes(st0@.data), sel_fn(*s, st0@.root)))")])}),
     Unit(name="Segment::process", calls=['Selector::process', 'State::flat_map'], file=F, impl="impl Query for Segment", fn="process", order=61,
          trait_method=True, serves=["C01", "C02"],
          attrs=["#[verifier::exec_allows_no_decreases_clause]"],
